@@ -14,6 +14,7 @@ import (
 	"fmt"
 	"os"
 	"strings"
+	"sync"
 	"time"
 
 	"github.com/mgtv-tech/redis-GunYu/config"
@@ -265,12 +266,92 @@ func main() {
 		}
 		runSeq(ops)
 	}
+	// one instance runs an election per source shard over the one connection of its redisCluster, each shard from a goroutine
+	// of its own: instance a holds shard X and keeps renewing it while it campaigns for shard Y, which instance b holds and
+	// renews.  Every answer has one right value throughout; a differing one is recorded with the store's holder at that time.
+	nConc := 0
+	if *shard == 0 {
+		srv.Lock()
+		srv.DBs = map[int]fakeredis.DB{}
+		srv.NowMs = 1_000_000
+		mode = ""
+		srv.Unlock()
+		connect("a")
+		connect("b")
+		keyX, keyY := key+"X/", key+"Y/"
+		ax, ay := cs["a"].cl.NewElection(ctx, keyX, longID["a"]), cs["a"].cl.NewElection(ctx, keyY, longID["a"])
+		by := cs["b"].cl.NewElection(ctx, keyY, longID["b"])
+		if r, err := ax.Campaign(ctx); err != nil || r != cluster.RoleLeader {
+			hx.Fatal("concurrent phase: a does not get shard X: %v %v", r, err)
+		}
+		if r, err := by.Campaign(ctx); err != nil || r != cluster.RoleLeader {
+			hx.Fatal("concurrent phase: b does not get shard Y: %v %v", r, err)
+		}
+		tid += *shards
+		tr.Emit(map[string]interface{}{"ev": "Reset", "id": tid, "ttl": *ttl})
+		holderOf := func(k string) string {
+			if v := srv.Get(0, k); v != nil {
+				return short[string(v.Str)]
+			}
+			return "none"
+		}
+		var mu sync.Mutex
+		var wg sync.WaitGroup
+		rec := func(shardName, i, op, res, want, k string) {
+			nConc++
+			if res == want {
+				return
+			}
+			mu.Lock()
+			tr.Emit(map[string]interface{}{"ev": "Conc", "shard": shardName, "i": i, "op": op, "res": res, "want": want, "holder": holderOf(k)})
+			mu.Unlock()
+		}
+		const rounds = 3000
+		wg.Add(3)
+		go func() {
+			defer wg.Done()
+			for n := 0; n < rounds; n++ {
+				res := "ok"
+				if err := ax.Renew(ctx); errors.Is(err, cluster.ErrNotLeader) {
+					res = "notleader"
+				} else if err != nil {
+					res = "err"
+				}
+				rec("X", "a", "renew", res, "ok", keyX)
+			}
+		}()
+		go func() {
+			defer wg.Done()
+			for n := 0; n < rounds; n++ {
+				res := "follower"
+				if r, err := ay.Campaign(ctx); err != nil {
+					res = "err"
+				} else if r == cluster.RoleLeader {
+					res = "leader"
+				}
+				rec("Y", "a", "campaign", res, "follower", keyY)
+			}
+		}()
+		go func() {
+			defer wg.Done()
+			for n := 0; n < rounds; n++ {
+				res := "ok"
+				if err := by.Renew(ctx); errors.Is(err, cluster.ErrNotLeader) {
+					res = "notleader"
+				} else if err != nil {
+					res = "err"
+				}
+				rec("Y", "b", "renew", res, "ok", keyY)
+			}
+		}()
+		wg.Wait()
+	}
 	if len(srv.LuaErrors) > 0 {
 		hx.Fatal("the lease store could not interpret a script: %v", srv.LuaErrors[0])
 	}
 	if err := tr.Close(); err != nil {
 		hx.Fatal("%v", err)
 	}
-	hx.WriteJSON(*statsPath, map[string]interface{}{"sequences": nSeq, "calls": nOps, "samples": samples})
+	hx.WriteJSON(*statsPath, map[string]interface{}{"sequences": nSeq, "calls": nOps, "concurrent_calls": nConc, "samples": samples})
 	fmt.Fprintf(os.Stderr, "leasedrv: %d sequences, %d calls\n", nSeq, nOps)
 }
